@@ -32,13 +32,15 @@ Inductive winstr :=
 | WTest                       (* err := c.writeErr; if err != nil { return err } *)
 | WWrite (fatal : bool) (c : chunk)   (* c.conn.Write; on error [return c.writeFatal(err)] if fatal *)
 | WLatch (close : bool)       (* if frameType == CloseMessage { c.writeFatal(ErrCloseSent) } *)
-| WRel                        (* c.mu <- true *)
+| WRel                        (* c.mu <- true on the paths that took the token (a release dominated by its acquire) *)
+| WRelU                       (* c.mu <- true on EVERY path, also those that never took the token (a release
+                                 deferred before a conditional acquire) *)
 | WEnd                        (* the operation returns to its caller *)
 | WCloseT                     (* Conn.Close: close the transport *)
 | WBad.
 
 (* skeleton events *)
-Inductive sev := SAcq (tmo : bool) | STest | SWrite (fatal : bool) | SLatch | SRel | SNop | SBad.
+Inductive sev := SAcq (tmo : bool) | STest | SWrite (fatal : bool) | SLatch | SRel | SRelEarly | SNop | SBad.
 Definition decode_sev (e : string * string) : sev :=
   let k := fst e in let a := snd e in
   if String.eqb k "acquire" then SAcq false
@@ -47,6 +49,7 @@ Definition decode_sev (e : string * string) : sev :=
   else if String.eqb k "write" then SWrite (String.eqb a "fatal")
   else if String.eqb k "latch_close" then (if String.eqb a "ErrCloseSent" then SLatch else SBad)
   else if String.eqb k "release" then SRel
+  else if String.eqb k "release_not_dominated_by_acquire" then SRelEarly
   else if String.eqb k "set_deadline" then SNop
   else SBad.
 Definition is_nop (e : sev) : bool := match e with SNop => true | _ => false end.
@@ -90,11 +93,13 @@ Definition sev_code (tmo : bool) (f : frame) (e : sev) : list winstr :=
   | SWrite fatal => map (WWrite fatal) (chunks_of f)
   | SLatch => [WLatch (is_close f)]
   | SRel => [WRel]
+  | SRelEarly => []            (* registered here, runs at the end of the call: see frame_code *)
   | SNop => []
   | SBad => [WBad]
   end.
+Definition is_early (e : sev) : bool := match e with SRelEarly => true | _ => false end.
 Definition frame_code (sk : list sev) (tmo : bool) (f : frame) : list winstr :=
-  flat_map (sev_code tmo f) sk.
+  flat_map (sev_code tmo f) sk ++ (if existsb is_early sk then [WRelU] else []).
 
 Inductive wop :=
 | OCtl (tmo : bool) (f : frame)     (* WriteControl *)
@@ -121,7 +126,9 @@ Record wstate := {
   wwire : list (nat * chunk);             (* transport writes that succeeded, newest first *)
   wclosed : list (nat * list chunk);      (* ghost: finished lock regions that wrote, newest first *)
   wopen : list chunk;                     (* ghost: what the current holder has written, newest first *)
-  wres : list (nat * option Z) }.         (* (thread, result) of every returned operation, newest first *)
+  wres : list (nat * option Z);            (* (thread, result) of every returned operation, newest first *)
+  wmsg : option nat;                      (* c.writer: the thread that has a data message open (NextWriter .. Close) *)
+  wcut : bool }.                          (* an open message was closed by ANOTHER thread's prepWrite: cut short *)
 
 Definition first_wins (cur : option Z) (e : Z) : option Z :=
   match cur with Some x => Some x | None => Some e end.
@@ -135,22 +142,27 @@ Definition wstep (s : wstate) (i : nat) : wstate :=
     | ins :: rest =>
       let adv tf := upd i {| wcode := rest; wfail := tf |} (wths s) in
       let skip := {| wlk := wlk s; werr := werr s; wtc := wtc s; wths := adv (wfail t);
-                     wwire := wwire s; wclosed := wclosed s; wopen := wopen s; wres := wres s |} in
+                     wwire := wwire s; wclosed := wclosed s; wopen := wopen s; wres := wres s; wmsg := wmsg s; wcut := wcut s |} in
       match ins with
       | WPrep =>
+          (* prepWrite: `if c.writer != nil { c.writer.Close(); c.writer = nil }` -- a message another
+             thread has open is closed under its feet -- then the sticky error; NextWriter installs
+             the new writer *)
           {| wlk := wlk s; werr := werr s; wtc := wtc s;
              wths := adv (match wfail t with Some e => Some e | None => werr s end);
-             wwire := wwire s; wclosed := wclosed s; wopen := wopen s; wres := wres s |}
+             wwire := wwire s; wclosed := wclosed s; wopen := wopen s; wres := wres s;
+             wmsg := Some i;
+             wcut := (match wmsg s with Some j => if Nat.eqb j i then wcut s else true | None => wcut s end) |}
       | WAcq tmo =>
           match wfail t with
           | Some _ => skip
           | None =>
               match wlk s with
               | None => {| wlk := Some i; werr := werr s; wtc := wtc s; wths := adv None;
-                           wwire := wwire s; wclosed := wclosed s; wopen := []; wres := wres s |}
+                           wwire := wwire s; wclosed := wclosed s; wopen := []; wres := wres s; wmsg := wmsg s; wcut := wcut s |}
               | Some _ =>
                   if tmo then {| wlk := wlk s; werr := werr s; wtc := wtc s; wths := adv (Some e_timeout);
-                                 wwire := wwire s; wclosed := wclosed s; wopen := wopen s; wres := wres s |}
+                                 wwire := wwire s; wclosed := wclosed s; wopen := wopen s; wres := wres s; wmsg := wmsg s; wcut := wcut s |}
                   else s                                   (* blocked *)
               end
           end
@@ -158,7 +170,7 @@ Definition wstep (s : wstate) (i : nat) : wstate :=
           match wfail t with
           | Some _ => skip
           | None => {| wlk := wlk s; werr := werr s; wtc := wtc s; wths := adv (werr s);
-                       wwire := wwire s; wclosed := wclosed s; wopen := wopen s; wres := wres s |}
+                       wwire := wwire s; wclosed := wclosed s; wopen := wopen s; wres := wres s; wmsg := wmsg s; wcut := wcut s |}
           end
       | WWrite fatal c =>
           match wfail t with
@@ -167,22 +179,25 @@ Definition wstep (s : wstate) (i : nat) : wstate :=
               if wtc s then
                 {| wlk := wlk s; werr := (if fatal then first_wins (werr s) e_transport else werr s);
                    wtc := wtc s; wths := adv (Some e_transport);
-                   wwire := wwire s; wclosed := wclosed s; wopen := wopen s; wres := wres s |}
+                   wwire := wwire s; wclosed := wclosed s; wopen := wopen s; wres := wres s; wmsg := wmsg s; wcut := wcut s |}
               else
                 {| wlk := wlk s; werr := werr s; wtc := wtc s; wths := adv None;
                    wwire := (i, c) :: wwire s; wclosed := wclosed s;
                    wopen := (match wlk s with
                              | Some h => if Nat.eqb h i then c :: wopen s else wopen s
                              | None => wopen s end);
-                   wres := wres s |}
+                   wres := wres s; wmsg := wmsg s; wcut := wcut s |}
           end
       | WLatch b =>
           match wfail t with
           | Some _ => skip
           | None => {| wlk := wlk s; werr := (if b then first_wins (werr s) e_close_sent else werr s);
                        wtc := wtc s; wths := adv None;
-                       wwire := wwire s; wclosed := wclosed s; wopen := wopen s; wres := wres s |}
+                       wwire := wwire s; wclosed := wclosed s; wopen := wopen s; wres := wres s; wmsg := wmsg s; wcut := wcut s |}
           end
+      (* The lock is a channel of capacity 1 holding one token: [wlk = None] = the token is in the
+         channel, [wlk = Some h] = thread h took it.  A release is the send `c.mu <- true`: it puts a
+         token back if there is none, and BLOCKS FOREVER when the channel is full. *)
       | WRel =>
           match wlk s with
           | Some h =>
@@ -190,16 +205,36 @@ Definition wstep (s : wstate) (i : nat) : wstate :=
                 {| wlk := None; werr := werr s; wtc := wtc s; wths := adv (wfail t);
                    wwire := wwire s;
                    wclosed := (match wopen s with [] => wclosed s | _ => (i, rev (wopen s)) :: wclosed s end);
-                   wopen := []; wres := wres s |}
-              else skip
-          | None => skip
+                   wopen := []; wres := wres s; wmsg := wmsg s; wcut := wcut s |}
+              else
+                match wfail t with
+                | Some _ => skip          (* this path did not take the token: no send here *)
+                | None =>                 (* it took the token, which was handed back behind its back and
+                                             taken again by h: the send fills the channel *)
+                    {| wlk := None; werr := werr s; wtc := wtc s; wths := adv None;
+                       wwire := wwire s; wclosed := wclosed s; wopen := wopen s; wres := wres s; wmsg := wmsg s; wcut := wcut s |}
+                end
+          | None =>
+              match wfail t with
+              | Some _ => skip
+              | None => s                 (* took the token, but the channel is full again: blocked forever *)
+              end
+          end
+      | WRelU =>
+          match wlk s with
+          | Some _ =>
+              {| wlk := None; werr := werr s; wtc := wtc s; wths := adv (wfail t);
+                 wwire := wwire s; wclosed := wclosed s; wopen := wopen s; wres := wres s; wmsg := wmsg s; wcut := wcut s |}
+          | None => s                     (* the channel is full: blocked forever *)
           end
       | WEnd =>
           {| wlk := wlk s; werr := werr s; wtc := wtc s; wths := adv None;
-             wwire := wwire s; wclosed := wclosed s; wopen := wopen s; wres := (i, wfail t) :: wres s |}
+             wwire := wwire s; wclosed := wclosed s; wopen := wopen s; wres := (i, wfail t) :: wres s;
+             wmsg := (match wmsg s with Some j => if Nat.eqb j i then None else Some j | None => None end);
+             wcut := wcut s |}
       | WCloseT =>
           {| wlk := wlk s; werr := werr s; wtc := true; wths := adv (wfail t);
-             wwire := wwire s; wclosed := wclosed s; wopen := wopen s; wres := wres s |}
+             wwire := wwire s; wclosed := wclosed s; wopen := wopen s; wres := wres s; wmsg := wmsg s; wcut := wcut s |}
       | WBad => skip
       end
     end
@@ -210,7 +245,7 @@ Definition wrun : wstate -> list nat -> wstate := srun wstep.
 Definition winit (codes : list (list winstr)) : wstate :=
   {| wlk := None; werr := None; wtc := false;
      wths := map (fun c => {| wcode := c; wfail := None |}) codes;
-     wwire := []; wclosed := []; wopen := []; wres := [] |}.
+     wwire := []; wclosed := []; wopen := []; wres := []; wmsg := None; wcut := false |}.
 Definition winit_ops (wsk csk : list sev) (progs : list (list wop)) : wstate :=
   winit (map (prog_code wsk csk) progs).
 
@@ -256,6 +291,49 @@ Definition find_cex (wsk csk : list sev) : option (list nat) :=
   let s := cex_state wsk csk in
   match wths s with
   | [a; b] => find_first (corrupt_after wsk csk) (interleavings (length (wcode a)) (length (wcode b)))
+  | _ => None
+  end.
+
+(* a release deferred BEFORE the deadline-bounded acquire of WriteControl: it also runs on the
+   timeout return, which never took the token *)
+Definition early_release_skel : list sev := [SRelEarly; SAcq true; STest; SWrite true; SLatch].
+
+(* thread i sits at a release it can never complete *)
+Definition rel_blocked (s : wstate) (i : nat) : bool :=
+  match nth_error (wths s) i with
+  | Some t => match wcode t, wfail t, wlk s with
+              | WRel :: _, None, None => true
+              | WRelU :: _, _, None => true
+              | _, _, _ => false
+              end
+  | None => false
+  end.
+
+(* three threads: a control write whose deadline expires, a second control write, a data writer
+   with one two-write frame; the data writer runs a steps, then the two control writers run to the
+   end, then the data writer continues *)
+Definition cex3_state (wsk csk : list sev) : wstate :=
+  winit_ops wsk csk [[OCtl true (fst cex_frames)]; [OCtl false (fst cex_frames)]; [OMsg [snd cex_frames]]].
+Definition cex3_sched (a : nat) : list nat := repeat 2%nat a ++ repeat 0%nat 8 ++ repeat 1%nat 8 ++ repeat 2%nat 12.
+Definition leaked_after (wsk csk : list sev) (sched : list nat) : bool :=
+  let s := wrun (cex3_state wsk csk) sched in
+  negb (wholeb (rev (wwire s))) && rel_blocked s 2.
+Definition find_cex3 (wsk csk : list sev) : option (list nat) :=
+  find_first (leaked_after wsk csk) (map cex3_sched (seq 0 12)).
+
+(* the reader answering a Ping through the MESSAGE path (WriteMessage(PongMessage, ..)) instead of
+   WriteControl: its program is a data message consisting of the pong frame.  Two threads: that
+   reader and a data writer with a two-frame message; every interleaving is searched for a state
+   in which the writer's open message has been cut *)
+Definition cex4_state (wsk csk : list sev) (on_message_path : bool) : wstate :=
+  let pong := {| f_op := 10; f_fin := true; f_len := 4; f_nch := 1 |} in
+  let d1 := {| f_op := 2; f_fin := false; f_len := 16; f_nch := 1 |} in
+  let d2 := {| f_op := 0; f_fin := true; f_len := 5; f_nch := 1 |} in
+  winit_ops wsk csk [[if on_message_path then OMsg [pong] else OPing pong]; [OMsg [d1; d2]]].
+Definition find_cex4 (wsk csk : list sev) (on_message_path : bool) : option (list nat) :=
+  let s := cex4_state wsk csk on_message_path in
+  match wths s with
+  | [a; b] => find_first (fun sc => wcut (wrun s sc)) (interleavings (length (wcode a)) (length (wcode b)))
   | _ => None
   end.
 
